@@ -4,6 +4,7 @@ import ast
 from sa.astutil import (call_name, calls_in, dotted, norm, walk_no_nested, last_attr,
                         str_consts)
 from sa.loader import AnalysisError
+from sa.canon import canon
 from sa.tables import Cfg
 from checks import groups as G
 
@@ -137,15 +138,20 @@ def run(ctx):
     getf = mod.func('squared_property.__get__')
     setf = mod.func('squared_property.__set__')
     namef = mod.func('squared_property.__set_name__')
-    rets = [r for r in walk_no_nested(getf) if isinstance(r, ast.Return)]
-    get_ok = any(isinstance(r.value, ast.BinOp) and isinstance(r.value.op, ast.Pow)
-                 and norm(r.value.right) == '2' and norm(r.value.left).startswith('getattr(%s, self.' % getf.args.args[1].arg)
-                 for r in rets) or any(
-        isinstance(r.value, ast.BinOp) and isinstance(r.value.op, ast.Mult)
-        and norm(r.value.left) == norm(r.value.right)
-        and norm(r.value.left).startswith('getattr(%s, self.' % getf.args.args[1].arg) for r in rets)
+    rets = [r for r in walk_no_nested(getf) if isinstance(r, ast.Return) and r.value is not None]
+    gcan = canon(getf)
+    inst_p = getf.args.args[1].arg
+    get_ok = False
+    get_forms = []
+    for r in rets:
+        e = gcan.expr(r.value)
+        get_forms.append(norm(e))
+        if isinstance(e, ast.BinOp) and isinstance(e.op, ast.Mult) and norm(e.left) == norm(e.right) \
+                and norm(e.left).startswith('getattr(%s, self.' % inst_p):
+            get_ok = True
     ctx.ob('C18.R3', 'squared:get-is-plain-squared', get_ok,
-           'squared_property.__get__ returns (plain attribute) ** 2, computed at read time',
+           'squared_property.__get__ returns plain * plain, computed at read time (the product gives '
+           'inf for a huge cut-off where ** 2 raises OverflowError); returns: %s' % get_forms,
            mod, getf)
     sets = [c for c in calls_in(setf) if call_name(c) == 'setattr']
     set_ok = len(sets) == 1 and len(sets[0].args) == 3 and \
@@ -206,7 +212,6 @@ def run(ctx):
         '': 'base class Group, never instantiated by a classifier',
         'BBN': 'backbone groups are filtered out of the side-chain pair loop',
         'BBC': 'backbone groups are filtered out of the side-chain pair loop',
-        'ION': 'ions are handled by set_ion_determinants and are never titratable',
         'LG': 'marvin ligand typing only (unreachable under the shipped file)',
         'ALG': 'marvin ligand typing only (unreachable under the shipped file)',
         'BLG': 'marvin ligand typing only (unreachable under the shipped file)',
@@ -265,6 +270,11 @@ def run(ctx):
                 other = base if q < 0 else acid
                 ctx.ob('C18.R5', 'acid-base-list:%s' % key, key in lst and key not in other,
                        'residue type %s with charge %+g is in %s only' % (key, q, lname), mod, add)
+    for key in order:
+        ctx.ob('C18.R5', 'written-type-has-model-pka:' + key, key in pkas,
+               'write_out_order entry %s has a model pKa (a type that is written out without one '
+               'is printed with pKa 0.00 and model pKa 0.00 wherever the unfiltered group list of '
+               'a conformation is written)' % key, mod, add)
     ctx.ob('C18.R5', 'write-out:no-duplicates', len(set(order)) == len(order),
            'write_out_order has no duplicate entry (a duplicate prints groups twice): %s'
            % sorted(k for k in set(order) if order.count(k) > 1), mod, add)
